@@ -53,13 +53,40 @@ META = {
     'exhaustive': False,
 }
 
-# (name, lazyUpdate, cacheValues, ncols, foreign key of column 0: None | ('n', T) cascade='null' | ('c', T) cascade=True)
-CLASSES = [('E', 0, 1, 2, None), ('L', 1, 1, 3, None), ('U', 0, 0, 2, None), ('LU', 1, 0, 2, None),
-           ('RN', 0, 1, 2, ('n', 0)), ('RL', 1, 1, 2, ('n', 0)), ('RU', 0, 0, 2, ('n', 0)), ('RC', 0, 1, 2, ('c', 0))]
+# (name, lazyUpdate, cacheValues, ncols, foreign key of column 0: None | ('n', T) cascade='null' | ('c', T) cascade=True,
+#  index of the JSONCol column (stored text != shown value) or None, string primary key?)
+CLASSES = [('E', 0, 1, 2, None, 1, 0), ('L', 1, 1, 3, None, 2, 0), ('U', 0, 0, 2, None, None, 0), ('LU', 1, 0, 2, None, None, 0),
+           ('RN', 0, 1, 2, ('n', 0), None, 0), ('RL', 1, 1, 2, ('n', 0), None, 0), ('RU', 0, 0, 2, ('n', 0), None, 0),
+           ('RC', 0, 1, 2, ('c', 0), None, 0), ('SK', 0, 1, 2, None, None, 1), ('SL', 1, 1, 2, None, 1, 1)]
 PLAIN = ['x', 'y', 'z']
 # python attribute names / database column names per class
-ATTRS = [(['fkID', 'x'] if fk else PLAIN[:n]) for (_, _, _, n, fk) in CLASSES]
-DBN = [(['fk_id', 'x'] if fk else PLAIN[:n]) for (_, _, _, n, fk) in CLASSES]
+ATTRS = [(['fkID', 'x'] if c[4] else PLAIN[:c[3]]) for c in CLASSES]
+DBN = [(['fk_id', 'x'] if c[4] else PLAIN[:c[3]]) for c in CLASSES]
+JOFF = 1000     # model-side tag of the stored representation of a JSONCol value
+
+
+def jcol(k, c):
+    return CLASSES[k][5] == c
+
+
+def strkey(k):
+    return bool(CLASSES[k][6])
+
+
+def idlit(k, rid):
+    return ("'%d'" % rid) if strkey(k) else ('%d' % rid)
+
+
+def idval(k, rid, alt=0):
+    """the id as the application passes it: canonical type, or (alt) the other one"""
+    if strkey(k):
+        return rid if alt else str(rid)
+    return str(rid) if alt else rid
+
+
+def enc_model(k, c, v):
+    """python value -> the model's stored value"""
+    return v + JOFF if (jcol(k, c) and v is not None and v != 'B') else v
 
 
 def tbl(k):
@@ -92,21 +119,22 @@ def env(do_cache):
     if do_cache in _envs:
         return _envs[do_cache]
     sqlo.setup()
-    from sqlobject import SQLObject, IntCol
+    from sqlobject import SQLObject, IntCol, JSONCol
     conn = make_conn_class()(':memory:', cache=do_cache)
     classes = []
     from sqlobject import ForeignKey
-    for (nm, lz, cv, n, fk) in CLASSES:
+    for kk, (nm, lz, cv, n, fk, jc, sk) in enumerate(CLASSES):
         name = sqlo.uniq('C05%s%d_' % (nm, int(do_cache)))
-        attrs = {'_connection': conn,
-                 'sqlmeta': type('sqlmeta', (), {'lazyUpdate': bool(lz), 'cacheValues': bool(cv),
-                                                 'table': 't_%s' % nm.lower()})}
+        meta = {'lazyUpdate': bool(lz), 'cacheValues': bool(cv), 'table': 't_%s' % nm.lower()}
+        if sk:
+            meta['idType'] = str
+        attrs = {'_connection': conn, 'sqlmeta': type('sqlmeta', (), meta)}
         if fk:
             attrs['fk'] = ForeignKey(classes[fk[1]].__name__, cascade=('null' if fk[0] == 'n' else True), default=None)
             attrs['x'] = IntCol(default=None)
         else:
-            for c in PLAIN[:n]:
-                attrs[c] = IntCol(default=None)
+            for ci, c in enumerate(PLAIN[:n]):
+                attrs[c] = JSONCol(default=None) if ci == jc else IntCol(default=None)
         attrs['__module__'] = __name__
         cls = type(name, (SQLObject,), attrs)
         globals()[name] = cls      # picklable by reference
@@ -123,6 +151,35 @@ def sv(v):
     return 'N' if v is None else ('B' if v == 'B' else str(v))
 
 
+def sv_py(k, c, v):
+    """a value the object SHOWS -> model text; a JSONCol showing its stored text is the tagged value"""
+    if v is None:
+        return 'N'
+    if jcol(k, c) and isinstance(v, str):
+        try:
+            return str(int(json.loads(v)) + JOFF)
+        except Exception:
+            return 'S?' + v
+    if isinstance(v, bool) or not isinstance(v, int):
+        return 'T?%r' % (v,)
+    return str(v)
+
+
+def sv_db(k, c, v):
+    """a STORED value (python object from sqlite / _SO_createValues, or SQL literal text) -> model text"""
+    if v is None or v == 'N' or v == 'NULL':
+        return 'N'
+    if jcol(k, c):
+        t = v
+        if isinstance(t, str) and len(t) >= 2 and t[0] == "'" and t[-1] == "'":
+            t = t[1:-1]
+        try:
+            return str(int(json.loads(t)) + JOFF)
+        except Exception:
+            return 'S?%s' % (v,)
+    return str(v)
+
+
 def kvtxt(kvs):
     return ','.join('%d=%s' % (c, sv(v)) for c, v in kvs) if kvs else '-'
 
@@ -132,9 +189,10 @@ def kvreq(kvs):
 
 
 _re_ins = re.compile(r'^INSERT INTO (\w+) \(([^)]*)\) VALUES \(([^)]*)\)$')
-_re_upd = re.compile(r'^UPDATE (\w+) SET (.*) WHERE id = \((-?\d+)\)$')
-_re_del = re.compile(r'^DELETE FROM (\w+) WHERE id = \((-?\d+)\)$')
-_re_sel1 = re.compile(r'^SELECT ([\w, ]+) FROM (\w+) WHERE \(\(\w+\.id\) = \((-?\d+)\)\)$')
+_re_upd = re.compile(r'''^UPDATE (\w+) SET (.*) WHERE id = \('?(-?\d+)'?\)$''')
+_re_del = re.compile(r'''^DELETE FROM (\w+) WHERE id = \('?(-?\d+)'?\)$''')
+_re_delw = re.compile(r'''^DELETE FROM (\w+) WHERE (\w+ = -?\w+|\(\(\w+\.id\) = \('?-?\d+'?\)\))$''')
+_re_sel1 = re.compile(r'''^SELECT ([\w, ]+) FROM (\w+) WHERE \(\(\w+\.id\) = \('?(-?\d+)'?\)\)$''')
 _re_selr = re.compile(r'^SELECT (\w+)\.id, .* FROM (\w+) WHERE \(\(\w+\.fk_id\) = \((-?\d+)\)\)$')
 _re_sela = re.compile(r'^SELECT (\w+)\.id, .* FROM (\w+) WHERE 1 = 1( ORDER BY (\w+\.)?id)?$')
 
@@ -158,10 +216,11 @@ def canon_stmt(e, q, auto_id=None):
         rid = d.pop('id', None)
         if rid is None:
             rid = '?' if auto_id is None else str(auto_id)
+        rid = rid.strip("'")
         n = CLASSES[k][3]
         if sorted(d) != sorted(DBN[k]):
             return 'SQL?' + q
-        return 'I %d %s %s' % (k, rid, ','.join('%d=%s' % (i, d[DBN[k][i]]) for i in range(n)))
+        return 'I %d %s %s' % (k, rid, ','.join('%d=%s' % (i, sv_db(k, i, d[DBN[k][i]])) for i in range(n)))
     m = _re_upd.match(q)
     if m and m.group(1) in tabs:
         k = tabs[m.group(1)]
@@ -170,11 +229,14 @@ def canon_stmt(e, q, auto_id=None):
             nm, v = a.split(' = ')
             if nm not in DBN[k]:
                 return 'SQL?' + q
-            parts.append('%d=%s' % (DBN[k].index(nm), sqlval(v)))
+            parts.append('%d=%s' % (DBN[k].index(nm), sv_db(k, DBN[k].index(nm), sqlval(v))))
         return 'U %d %s %s' % (k, m.group(3), ','.join(parts))
     m = _re_del.match(q)
     if m and m.group(1) in tabs:
         return 'D %d %s' % (tabs[m.group(1)], m.group(2))
+    m = _re_delw.match(q)
+    if m and m.group(1) in tabs:
+        return 'Dw %d' % tabs[m.group(1)]
     m = _re_sel1.match(q)
     if m and m.group(2) in tabs:
         k = tabs[m.group(2)]
@@ -209,13 +271,15 @@ def parse_update(tok):
 
 
 class Held(object):
-    __slots__ = ('obj', 'k', 'rid', 'destroyed', 'tainted', 'pend', 'incache')
+    __slots__ = ('obj', 'k', 'rid', 'destroyed', 'tainted', 'pend', 'incache', 'dead', 'superseded')
 
     def __init__(self, obj, k, rid):
         self.obj = obj
         self.k = k
         self.rid = rid
         self.destroyed = False
+        self.superseded = False  # ... and the library itself created a new row under the same key since
+        self.dead = False        # the row this instance was built for is gone (destroyed / bulk-deleted / key re-used)
         self.tainted = False     # row changed behind the instance's back and no sync()/expire() since
         self.pend = {}           # harness's own record of unwritten lazy assignments
         self.incache = True
@@ -253,16 +317,27 @@ class Runner(object):
         cur.close()
         self.conn.stmts = []
         self.conn.fail_update = False
-        cfg = ' '.join('%d %d %d %s' % (lz, cv, n, ('%s%d' % fk) if fk else '-') for (_, lz, cv, n, fk) in CLASSES)
+        cfg = ' '.join('%d %d %d %s %s' % (lz, cv, n, ('%s%d' % fk) if fk else '-', '-' if jc is None else 'j%d' % jc)
+                       for (_, lz, cv, n, fk, jc, _sk) in CLASSES)
         self.lines.append(('reset %d %s' % (int(self.do_cache), cfg), 'ok', 'protocol'))
 
-    def rawrow(self, k, rid):
-        n = CLASSES[k][3]
+    def rawstored(self, k, rid):
         cur = self.raw.cursor()
-        cur.execute('SELECT %s FROM %s WHERE id = %d' % (', '.join(DBN[k]), tbl(k), rid))
+        cur.execute('SELECT %s FROM %s WHERE id = %s' % (', '.join(DBN[k]), tbl(k), idlit(k, rid)))
         r = cur.fetchone()
         cur.close()
         return None if r is None else tuple(r)
+
+    def rawrow(self, k, rid):
+        """the row as Python values (JSON text decoded by the harness itself, not by the library)"""
+        r = self.rawstored(k, rid)
+        if r is None:
+            return None
+        return tuple((json.loads(v) if (jcol(k, c) and v is not None) else v) for c, v in enumerate(r))
+
+    def rawcanon(self, k, rid):
+        r = self.rawstored(k, rid)
+        return 'none' if r is None else ','.join(sv_db(k, c, v) for c, v in enumerate(r))
 
     def rawexec(self, sql):
         cur = self.raw.cursor()
@@ -293,8 +368,10 @@ class Runner(object):
     def canon(self, stmts, auto_id=None):
         return [canon_stmt(self.e, q, auto_id) for q in stmts]
 
-    def pyval(self, v):
-        return 'x' if v == 'B' else v
+    def pyval(self, v, k=None, c=None):
+        if v == 'B':
+            return object() if (k is not None and jcol(k, c)) else 'x'
+        return v
 
     def others_on_row(self, k, rid, but=None):
         return [h for h, hd in self.held.items() if hd.k == k and hd.rid == rid and h != but]
@@ -303,18 +380,49 @@ class Runner(object):
         del self.held[h]
         self.lines.append(('drop %d' % h, 'ok |  | u=0', 'op outcome, statements, UPDATE count: model = main.py'))
 
-    def adopt(self, obj, k, rid, line_fmt, stmts):
-        """a new instance came out of the library: give it a handle; older handles on the same row go"""
+    def bump(self, name):
+        self.stats[name] = self.stats.get(name, 0) + 1
+
+    def adopt(self, obj, k, rid, line_fmt, stmts, created=False):
+        """a new instance came out of the library: give it a handle.
+        Older handles on the same row: instances of an earlier incarnation of the row (create) become DEAD;
+        an instance the harness knows to be out of the cache (expire() evicts: open C04 finding) is dropped;
+        one that should still be in the cache stays held - the library just built a SECOND instance of a row it
+        already handed out, and every later write through one of them must not leave the other stale."""
         for h2 in self.others_on_row(k, rid):
-            if not self.held[h2].destroyed:
-                self.stats['c04-second-instance-for-a-held-row (older handle dropped)'] = \
-                    self.stats.get('c04-second-instance-for-a-held-row (older handle dropped)', 0) + 1
-            self.drop(h2)
+            hd2 = self.held[h2]
+            if created:
+                # created() replaces the cache entry of the key: whatever stood for an earlier row of that key is out
+                hd2.dead = True
+                hd2.superseded = True
+                hd2.tainted = True
+                hd2.incache = False
+                continue
+            if hd2.dead:
+                continue
+            if not hd2.incache:
+                self.bump('c04-second-instance-for-a-held-row (older handle dropped)')
+                self.drop(h2)
+            else:
+                self.bump('UNEXPECTED second instance of a row whose instance is cached (both kept)')
         h = self.nexth
         self.nexth += 1
         self.held[h] = Held(obj, k, rid)
-        self.emit(line_fmt % h, 'ok', stmts)
+        if line_fmt is not None:
+            self.emit(line_fmt % h, 'ok', stmts)
         return h
+
+    def revive(self, h):
+        """the library handed out an instance the harness had written off: it now stands for the row again"""
+        hd = self.held[h]
+        if hd.dead and hd.superseded and not hd.destroyed:
+            # only when the LIBRARY re-created the key: then its cache must hold the new instance
+            self.bump('library handed out an instance of an earlier incarnation of a re-created row')
+            hd.dead = False
+            hd.superseded = False
+            hd.tainted = False
+        elif hd.dead:
+            self.bump('get/select handed out the cached instance of a bulk-deleted row (not checked)')
 
     def find(self, obj):
         for h, hd in self.held.items():
@@ -323,7 +431,14 @@ class Runner(object):
         return None
 
     def taint_row(self, k, rid, but=None):
+        """a write through the library to row (k, rid): instances of earlier incarnations are out of date"""
         for h2 in self.others_on_row(k, rid, but):
+            if self.held[h2].dead:
+                self.held[h2].tainted = True
+
+    def taint_all(self, k, rid):
+        """raw SQL behind the library's back"""
+        for h2 in self.others_on_row(k, rid):
             self.held[h2].tainted = True
 
     # ---- ops
@@ -341,17 +456,19 @@ class Runner(object):
         self.after_step(op)
         return True
 
-    def op_create(self, k, rid, kvs):
+    def op_create(self, k, rid, kvs, alt=0):
         cls = self.e['classes'][k]
-        kw = dict((ATTRS[k][c], self.pyval(v)) for c, v in kvs)
+        if rid is None and strkey(k):
+            return False
+        kw = dict((ATTRS[k][c], self.pyval(v, k, c)) for c, v in kvs)
         if rid is not None:
-            kw['id'] = rid
+            kw['id'] = idval(k, rid, alt)
         before = None if rid is None else self.rawrow(k, rid)
         out, obj, stmts = self.outcome(lambda: cls(**kw))
         if out == 'ok':
-            real = obj.id
+            real = int(obj.id)
             st = self.canon(stmts, real)
-            self.adopt(obj, k, real, 'create %%d %d %d %s' % (k, real, kvreq(kvs)), st)
+            self.adopt(obj, k, real, 'create %%d %d %d %s' % (k, real, kvreq(kvs)), st, created=True)
             # C16: inserts are immediate (also for lazy classes)
             n = CLASSES[k][3]
             want = tuple(dict(kvs).get(c) for c in range(n))
@@ -364,9 +481,9 @@ class Runner(object):
             if rid is not None and self.rawrow(k, rid) != before:
                 self.fail('failed-create-changed-row', k, 'row %r -> %r' % (before, self.rawrow(k, rid)))
 
-    def op_get(self, k, rid):
+    def op_get(self, k, rid, alt=0):
         cls = self.e['classes'][k]
-        out, obj, stmts = self.outcome(lambda: cls.get(rid))
+        out, obj, stmts = self.outcome(lambda: cls.get(idval(k, rid, alt)))
         st = self.canon(stmts)
         if out != 'ok':
             self.emit('fetch %d %d %d 0' % (self.nexth, k, rid), out, st)
@@ -375,6 +492,7 @@ class Runner(object):
         if h is None:
             self.adopt(obj, k, rid, 'fetch %%d %d %d 0' % (k, rid), st)
         else:
+            self.revive(h)
             self.direct.append(('get() of a held instance sends no statement', '', ';'.join(st)))
 
     def op_select(self, k):
@@ -387,11 +505,41 @@ class Runner(object):
         for obj in objs:
             h = self.find(obj)
             if h is None:
-                self.adopt(obj, k, obj.id, 'fetch %%d %d %d 1' % (k, obj.id), [])
+                self.adopt(obj, k, int(obj.id), 'fetch %%d %d %d 1' % (k, int(obj.id)), [])
             else:
+                self.revive(h)
                 self.emit('refresh %d' % h, 'ok', [])
                 if not self.held[h].pend:
                     self.held[h].tainted = False     # a clean instance is reloaded from the select row
+
+    def bulk(self, k, ids, fn):
+        """deleteBy / deleteMany: rows vanish, their instances are not told"""
+        out, _, stmts = self.outcome(fn)
+        self.emit(('bulkdelete %d %s' % (k, ' '.join(str(i) for i in ids))).strip(), out, self.canon(stmts))
+        if out == 'ok':
+            for i in ids:
+                if self.rawrow(k, i) is not None:
+                    self.fail('bulk-delete-left-row', k, 'row %d still there' % i)
+                for h2 in self.others_on_row(k, i):
+                    self.held[h2].dead = True
+                    self.held[h2].tainted = True
+
+    def op_deleteby(self, k, c, v):
+        if c >= CLASSES[k][3] or jcol(k, c):
+            return False
+        cur = self.raw.cursor()
+        cur.execute('SELECT id FROM %s WHERE %s %s ORDER BY id' % (tbl(k), DBN[k][c], 'IS NULL' if v is None else '= %d' % v))
+        ids = [int(r[0]) for r in cur.fetchall()]
+        cur.close()
+        if v is None:
+            return False     # deleteBy(x=None) renders "x = NULL"; not interesting here
+        cls = self.e['classes'][k]
+        self.bulk(k, ids, lambda: cls.deleteBy(**{ATTRS[k][c]: v}))
+
+    def op_deletemany(self, k, rid):
+        cls = self.e['classes'][k]
+        ids = [rid] if self.rawrow(k, rid) is not None else []
+        self.bulk(k, ids, lambda: cls.deleteMany(cls.q.id == idval(k, rid)))
 
     def need(self, h):
         return self.held.get(h)
@@ -432,7 +580,7 @@ class Runner(object):
         if hd is None or c >= CLASSES[hd.k][3]:
             return False
         out, val, stmts = self.outcome(lambda: getattr(hd.obj, ATTRS[hd.k][c]))
-        txt = ('val ' + sv(val)) if out == 'ok' else out
+        txt = ('val ' + sv_py(hd.k, c, val)) if out == 'ok' else out
         self.emit('read %d %d' % (h, c), txt, self.canon(stmts), 'attribute read (value, statements): model = main.py')
         self.check_read(h, hd, c, out, val, where)
 
@@ -447,10 +595,10 @@ class Runner(object):
         if hd is None or c >= CLASSES[hd.k][3]:
             return False
         before = self.rawrow(hd.k, hd.rid)
-        if hd.destroyed or before is None:
+        if hd.dead or hd.destroyed or before is None:
             hd.tainted = True     # writing through a dead instance is outside the property
         self.conn.fail_update = bool(fail)
-        out, _, stmts = self.outcome(lambda: setattr(hd.obj, ATTRS[hd.k][c], self.pyval(v)))
+        out, _, stmts = self.outcome(lambda: setattr(hd.obj, ATTRS[hd.k][c], self.pyval(v, hd.k, c)))
         st = self.canon(stmts)
         self.emit('setattr %d %d %s %d' % (h, c, sv(v), int(fail)), out, st)
         self.lazy_noupdate_check(hd, st, before, 'assignment')
@@ -467,10 +615,10 @@ class Runner(object):
         if hd is None or any(c >= CLASSES[hd.k][3] for c, _ in kvs):
             return False
         before = self.rawrow(hd.k, hd.rid)
-        if hd.destroyed or before is None:
+        if hd.dead or hd.destroyed or before is None:
             hd.tainted = True
         self.conn.fail_update = bool(fail)
-        kw = dict((ATTRS[hd.k][c], self.pyval(v)) for c, v in kvs)
+        kw = dict((ATTRS[hd.k][c], self.pyval(v, hd.k, c)) for c, v in kvs)
         out, _, stmts = self.outcome(lambda: hd.obj.set(**kw))
         st = self.canon(stmts)
         self.emit('set %d %d %s' % (h, int(fail), ' '.join('%d=%s' % (c, sv(v)) for c, v in kvs)), out, st)
@@ -495,7 +643,8 @@ class Runner(object):
             if ups:
                 self.fail('flush-update-without-pending', hd.k, '%s with nothing pending sent %r' % (what, ups))
             return
-        if len(ups) != 1 or parse_update(ups[0]) != (hd.k, hd.rid, want):
+        want_db = dict((c, enc_model(hd.k, c, v)) for c, v in want.items())
+        if len(ups) != 1 or parse_update(ups[0]) != (hd.k, hd.rid, want_db):
             self.fail('flush-not-exactly-pending', hd.k, '%s sent %r, the pending assignments were %r' % (what, ups, want))
         if before is not None:
             exp = tuple(want.get(c, before[c]) for c in range(len(before)))
@@ -622,7 +771,8 @@ class Runner(object):
                             ups = [parse_update(x)[2] for x in st if x.startswith('U %d %d ' % (k2, i))]
                             after2 = self.rawrow(k2, i)
                             exp2 = None if before2 is None else tuple(want.get(c, before2[c]) for c in range(len(before2)))
-                            if ups != ([want] if want else []) or after2 != exp2 or hd2.obj.sqlmeta.dirty:
+                            want_db = dict((c, enc_model(k2, c, v)) for c, v in want.items())
+                            if ups != ([want_db] if want else []) or after2 != exp2 or hd2.obj.sqlmeta.dirty:
                                 self.fail('cascade-flush-not-exactly-pending', k2,
                                           'destroySelf of the referenced row %d sent %r for the lazy referrer %d (pending before: %r), '
                                           'row %r -> %r, dirty=%r' % (rid, ups, i, want, before2, after2, hd2.obj.sqlmeta.dirty))
@@ -687,24 +837,30 @@ class Runner(object):
         hd = self.need(h)
         if hd is None:
             return False
-        if self.conn.cache.tryGet(hd.rid, self.e['classes'][hd.k]) is hd.obj and self.do_cache:
+        if self.conn.cache.tryGet(hd.obj.id, self.e['classes'][hd.k]) is hd.obj and self.do_cache:
             return False    # the strong cache would hand the same object out again
         self.drop(h)
         del hd
         gc.collect()
 
+    def sqllit(self, k, c, v):
+        if v is None:
+            return 'NULL'
+        return "'%s'" % json.dumps(v) if jcol(k, c) else str(v)
+
     def op_oobupdate(self, k, rid, c, v):
         if c >= CLASSES[k][3]:
             return False
-        self.rawexec('UPDATE %s SET %s = %s WHERE id = %d' % (tbl(k), DBN[k][c], 'NULL' if v is None else v, rid))
-        self.lines.append(('oobupdate %d %d %d %s' % (k, rid, c, sv(v)), 'ok |  | u=0', 'op outcome, statements, UPDATE count: model = main.py'))
+        self.rawexec('UPDATE %s SET %s = %s WHERE id = %s' % (tbl(k), DBN[k][c], self.sqllit(k, c, v), idlit(k, rid)))
+        self.lines.append(('oobupdate %d %d %d %s' % (k, rid, c, sv(enc_model(k, c, v))), 'ok |  | u=0',
+                           'op outcome, statements, UPDATE count: model = main.py'))
         if self.rawrow(k, rid) is not None:
-            self.taint_row(k, rid)
+            self.taint_all(k, rid)
 
     def op_oobdelete(self, k, rid):
-        self.rawexec('DELETE FROM %s WHERE id = %d' % (tbl(k), rid))
+        self.rawexec('DELETE FROM %s WHERE id = %s' % (tbl(k), idlit(k, rid)))
         self.lines.append(('oobdelete %d %d' % (k, rid), 'ok |  | u=0', 'op outcome, statements, UPDATE count: model = main.py'))
-        self.taint_row(k, rid)
+        self.taint_all(k, rid)
 
     def op_oobinsert(self, k, rid, kvs):
         n = CLASSES[k][3]
@@ -712,12 +868,12 @@ class Runner(object):
             return False
         if self.rawrow(k, rid) is None:
             d = dict(kvs)
-            self.rawexec('INSERT INTO %s (id, %s) VALUES (%d, %s)' % (
-                tbl(k), ', '.join(DBN[k]), rid,
-                ', '.join('NULL' if d.get(c) is None else str(d[c]) for c in range(n))))
-        self.lines.append(('oobinsert %d %d %s' % (k, rid, ' '.join('%d=%s' % (c, sv(v)) for c, v in kvs)), 'ok |  | u=0',
-                           'op outcome, statements, UPDATE count: model = main.py'))
-        self.taint_row(k, rid)
+            self.rawexec('INSERT INTO %s (id, %s) VALUES (%s, %s)' % (
+                tbl(k), ', '.join(DBN[k]), idlit(k, rid),
+                ', '.join(self.sqllit(k, c, d.get(c)) for c in range(n))))
+        self.lines.append(('oobinsert %d %d %s' % (k, rid, ' '.join('%d=%s' % (c, sv(enc_model(k, c, v))) for c, v in kvs)),
+                           'ok |  | u=0', 'op outcome, statements, UPDATE count: model = main.py'))
+        self.taint_all(k, rid)
 
     # ---- after every step
     def peek(self, h, hd):
@@ -727,12 +883,13 @@ class Runner(object):
         cols = []
         for c in range(n):
             key = '_SO_val_' + ATTRS[hd.k][c]
-            cols.append(sv(d[key]) if key in d else '-')
+            cols.append(sv_py(hd.k, c, d[key]) if key in d else '-')
         pend = d.get('_SO_createValues', {})
         pk = sorted((ATTRS[hd.k].index(nm), v) for nm, v in pend.items())
+        ptxt = ','.join('%d=%s' % (c, sv_db(hd.k, c, v)) for c, v in pk) if pk else '-'
         incache = self.conn.cache.tryGet(o.id, type(o)) is o
         return 'cls=%d id=%d cached=%s expired=%d dirty=%d pending=%s obsolete=%d incache=%d' % (
-            hd.k, o.id, ','.join(cols), int(bool(o.sqlmeta.expired)), int(bool(o.sqlmeta.dirty)), kvtxt(pk),
+            hd.k, int(o.id), ','.join(cols), int(bool(o.sqlmeta.expired)), int(bool(o.sqlmeta.dirty)), ptxt,
             int(bool(o.sqlmeta._obsolete)), int(incache))
 
     def after_step(self, op):
@@ -766,9 +923,7 @@ class Runner(object):
                                       % (where, h, hd.rid, ATTRS[k][c], o.__dict__[key], exp[1]))
         for k in range(len(CLASSES)):
             for rid in range(1, MAXID + 1):
-                r = self.rawrow(k, rid)
-                self.lines.append(('row %d %d' % (k, rid), 'none' if r is None else ','.join(sv(v) for v in r),
-                                   'raw row after every step: model = SQLite'))
+                self.lines.append(('row %d %d' % (k, rid), self.rawcanon(k, rid), 'raw row after every step: model = SQLite'))
         self.conn.stmts = []
 
 
@@ -790,7 +945,7 @@ def gen_val(rng, pbad=0.08, k=None, c=None):
 def gen_op(rng, r, weights):
     """next abstract op for the runner's current state"""
     held = sorted(r.held)
-    live = [h for h in held if not r.held[h].destroyed]
+    live = [h for h in held if not r.held[h].destroyed and not r.held[h].dead]
 
     def pick_h(allow_dead=0.1):
         if not held:
@@ -813,7 +968,8 @@ def gen_op(rng, r, weights):
                 targets = [r.held[h2].rid for h2 in live if r.held[h2].k == CLASSES[k][4][1]]
                 if targets and rng.random() < 0.75:
                     kvs = [kv for kv in kvs if kv[0] != 0] + [[0, rng.choice(targets)]]
-            rid = None if rng.random() < 0.5 else rng.randint(1, MAXID)
+            rid = None if (rng.random() < 0.5 and not strkey(k)) else rng.randint(1, MAXID)
+            alt = 1 if (rid is not None and rng.random() < 0.2) else 0
             if rid is None:
                 # keep the table small
                 cur = r.raw.cursor()
@@ -822,10 +978,20 @@ def gen_op(rng, r, weights):
                 cur.close()
                 if m is not None and m[0] >= MAXID:
                     continue
-            return ['create', k, rid, kvs]
+            return ['create', k, rid, kvs, alt]
         if name == 'get':
             k = pick_k()
-            return ['get', k, rng.randint(1, MAXID)]
+            return ['get', k, rng.randint(1, MAXID), 1 if rng.random() < 0.2 else 0]
+        if name == 'deleteby':
+            k = pick_k()
+            cs = [c for c in range(CLASSES[k][3]) if not jcol(k, c)]
+            c = rng.choice(cs)
+            v = gen_val(rng, 0, k, c)
+            if v is None:
+                continue
+            return ['deleteby', k, c, v]
+        if name == 'deletemany':
+            return ['deletemany', pick_k(), rng.randint(1, MAXID)]
         if name == 'select':
             return ['select', pick_k()]
         if name in ('expireall',):
@@ -869,8 +1035,9 @@ def gen_op(rng, r, weights):
 
 OPS_C05 = (['create'] * 10 + ['get'] * 7 + ['select'] * 6 + ['read'] * 8 + ['setattr'] * 14 + ['set'] * 9 +
            ['syncupdate'] * 4 + ['sync'] * 7 + ['expire'] * 8 + ['expireall'] * 2 + ['expireallcls'] * 1 +
-           ['destroy'] * 4 + ['pickle'] * 2 + ['drop'] * 1 + ['oobupdate'] * 4 + ['oobdelete'] * 2 + ['oobinsert'] * 1)
-W_C05 = {'ops': OPS_C05, 'classes': [0, 0, 0, 0, 1, 1, 2, 2, 3, 4, 4, 5, 5, 6, 7, 7]}
+           ['destroy'] * 4 + ['pickle'] * 2 + ['drop'] * 1 + ['oobupdate'] * 4 + ['oobdelete'] * 2 + ['oobinsert'] * 1 +
+           ['deleteby'] * 1 + ['deletemany'] * 2)
+W_C05 = {'ops': OPS_C05, 'classes': [0, 0, 0, 0, 1, 1, 2, 2, 3, 4, 4, 5, 5, 6, 7, 7, 8, 8, 9]}
 
 
 def interesting(ops):
